@@ -92,6 +92,7 @@ var c13Malformations = []string{
 	"ppid-short", "ppid-long", "pceid-short", "pceid-long", "fmspc-short", "fmspc-long", "cpusvn-short", "cpusvn-long",
 	"comp-as-octet", "pcesvn-as-octet", "ppid-as-int", "fmspc-as-int", "cpusvn-as-int", "tcb-as-octet",
 	"ppid-wrong-type-right-length", "pceid-wrong-type-right-length", "fmspc-wrong-type-right-length", "cpusvn-wrong-type-right-length",
+	"comp-as-other-type", "comp-as-other-type", "pcesvn-as-other-type", "octet-field-wrapped-wrong-size", "octet-field-wrapped-wrong-size",
 	"tcb-17", "tcb-19", "trailing-top", "trailing-inner", "trailing-tcb", "truncated", "no-sgx-ext", "ext-5", "ext-7", "top-3-elements", "top-not-sequence",
 }
 
@@ -232,6 +233,40 @@ func c13Mutate(t *rapid.T, kind string, top *gen.Node, s *gen.Stream) (der []byt
 		default:
 			tcb.Kids[17].Kids[1] = mk(16)
 		}
+	case "comp-as-other-type", "pcesvn-as-other-type":
+		// the value of an INTEGER element encoded with a type that is not an INTEGER (incl. types a generic decoder has
+		// no Go value for: ENUMERATED, NULL, BOOLEAN, REAL, constructed and non-universal tags); never the first element,
+		// so that whatever the previous element left behind cannot stand in for it
+		alt := rapid.SampledFrom([]*gen.Node{
+			{Tag: 0x0a, Content: []byte{5}}, {Tag: 0x05}, {Tag: 0x01, Content: []byte{0xff}}, {Tag: 0x09, Content: []byte{0x80, 0x00, 0x05}}, {Tag: 0x80, Content: []byte{5}}, {Tag: 0x41, Content: []byte{5}},
+			{Tag: 0xc2, Content: []byte{5}}, {Tag: 0x30, Kids: []*gen.Node{gen.IntMin(5)}}, {Tag: 0x31, Kids: []*gen.Node{gen.IntMin(5)}}, {Tag: 0xa0, Kids: []*gen.Node{gen.IntMin(5)}}, {Tag: 0x0c, Content: []byte("5")},
+			{Tag: 0x06, Content: []byte{0x2a, 0x03}}, {Tag: 0x17, Content: []byte("310314000000Z")}, {Tag: 0x03, Content: []byte{0x00, 0x05}},
+		}).Draw(t, "altType")
+		i := 1 + ci%15
+		if kind == "pcesvn-as-other-type" {
+			i = 16
+		}
+		tcb.Kids[i].Kids[1] = alt.Clone()
+	case "octet-field-wrapped-wrong-size":
+		// the legacy form (an OCTET STRING holding an OCTET STRING) with an inner value that is too long or too short
+		field := rapid.IntRange(0, 3).Draw(t, "wrappedField")
+		size := []int{16, 2, 6, 16}[field]
+		delta := rapid.SampledFrom([]int{1, 3, 8, -1, -3, -size}).Draw(t, "wrappedDelta")
+		if size+delta < 0 || delta == -2 {
+			delta = 1
+		}
+		inner := oct(size + delta)
+		wrapped := gen.Octet(gen.Octet(inner).Encode())
+		switch field {
+		case 0:
+			top.Kids[0].Kids[1] = wrapped
+		case 1:
+			top.Kids[2].Kids[1] = wrapped
+		case 2:
+			top.Kids[3].Kids[1] = wrapped
+		default:
+			tcb.Kids[17].Kids[1] = wrapped
+		}
 	case "comp-as-octet":
 		tcb.Kids[ci].Kids[1] = gen.Octet([]byte{5})
 	case "pcesvn-as-octet":
@@ -322,6 +357,19 @@ func TestC13(t *testing.T) {
 		s := gen.NewStream(rapid.Uint64().Draw(t, "content"), "c13")
 		v := drawSgxValues(t, s)
 		top := gen.SgxTree(v)
+		wrapped := false
+		if rapid.IntRange(0, 3).Draw(t, "legacyWrapped") == 0 {
+			wrapped = true
+			// the legacy form of the fixed-size fields: an OCTET STRING holding an OCTET STRING of exactly the right size
+			tcb0 := tcbNode(top)
+			for fi, slot := range []**gen.Node{&top.Kids[0].Kids[1], &top.Kids[2].Kids[1], &top.Kids[3].Kids[1], &tcb0.Kids[17].Kids[1]} {
+				if rapid.Bool().Draw(t, fmt.Sprintf("wrap%d", fi)) {
+					val := [][]byte{v.PPID[:], v.PceID[:], v.Fmspc[:], v.CpuSvn[:]}[fi]
+					*slot = gen.Octet(gen.Octet(val).Encode())
+				}
+			}
+			gen.Class("octet-fields-in-legacy-wrapped-form")
+		}
 		order := "canonical"
 		switch rapid.IntRange(0, 5).Draw(t, "order") {
 		case 1, 2:
@@ -359,6 +407,11 @@ func TestC13(t *testing.T) {
 		rp := map[string]any{"kind": "sgxext", "sgx_hex": hex.EncodeToString(der), "n_ext": 6, "pos": pos, "include": true, "expect": "values", "values_hex": valuesHex(v)}
 		if vd.Panicked() {
 			gen.Fail(t, gen.Violation{Key: "panic@" + gen.PanicSite(vd.Stack), Oracle: "extraction returns values or an error", Detail: vd.Panic, Replay: rp})
+			return
+		}
+		if !vd.Accepted() && wrapped {
+			// whether the legacy wrapped form is understood at all is the implementation's choice; what it extracts must be right
+			gen.Class("legacy-wrapped-form-rejected")
 			return
 		}
 		if !vd.Accepted() {
